@@ -7,11 +7,12 @@ the code's memo).  The model is tied to `/repo` by the correspondence of `harnes
 
 What is proved, for all heaps, datasets, indices and operation sequences (no bound):
 
-* `history_invariant`   after any sequence of successful operations (new / obj / add / del / subset /
-                        extend / merge(+sort) / filter-subset / unique) every dataset of the world is
-                        rectangular: every field, every field nested in collections, every `other`
-                        / `ref_pos` object attached (recursively) has exactly `num_obs` rows, and every
-                        field's own `num_obs` equals the dataset's.
+* `history_invariant`   after any sequence of successful operations (new / obj / add / add_collection at any
+                        depth / del / subset / extend / merge(+sort) / filter-subset / unique / **difference**)
+                        every dataset of the world is rectangular: every field, every field nested in
+                        collections, every `other` / `ref_pos` object attached (recursively) has exactly
+                        `num_obs` rows, and every field's own `num_obs` equals the dataset's.  (Since the
+                        `fix:` of `Collection.__len__` no shape of field tree is excluded any more.)
 * `subset_refines`      `subset` is, object by object, "keep the selected rows": the new field tree has
                         the same names / kinds / units / levels in the same order, every array — and
                         every array attached to it — is the image of the old one under `pick idx`,
@@ -25,18 +26,33 @@ What is proved, for all heaps, datasets, indices and operation sequences (no bou
 * `sort_is_stable_permutation`, `sort_refines`   merge-with-sort permutes every column by one
                         permutation of the row numbers that is sorted by key and stable.
 * `subset_count_not_sum` the negation witness for the code as it was (`num_obs = sum(idx)`).
-
 * `subset_keeps_sharing` one function from old to new array objects describes what every time / position /
                         delta field holds after `subset` (and after the sort of `merge_with`): fields
                         that shared an object share the new one — the memo re-creates it exactly once.
+* `difference_pairs_by_key`   `difference(index_by=…)`: the result has one row per key tuple common to the two
+                        datasets, in strictly ascending key order; EVERY field of the result — at the top level
+                        and in collections nested to any depth — is built with one and the same pair of row
+                        indices: row `k` is taken from the FIRST row of self / of other that carries the `k`-th
+                        common key (`DiffOf`: difference fields, `_self`/`_other` copies, collections; the index
+                        fields are copies of self's).  `difference_row` reads the rows off: row `k` of a
+                        difference array is (row `i_k` of self) − (row `j_k` of other)·factor.
+* `difference_pairs_by_position`, `difference_row_positional`   without `index_by`: the numbers of
+                        observations agree and row `k` pairs with row `k`, in every field at every depth.
+* `difference_rectangular`    the result of `difference` is a rectangular, well-formed table (whatever the
+                        operands were).
+* `common_keys_sorted_distinct`, `first_occurrence`   the `intersect1d` model: the common keys ascending and
+                        distinct; the paired row is the first one carrying the key.
 
 Not proved (measured by the correspondence and the property oracle only): the content half of the
 refinement for `extend` (`abs (extend d e) = abs d ++ pad (abs e)` incl. unit factors — only the row
 counts and the array-level splice are theorems), sharing under `extend` and the identity of
 *attached* objects with fields (`p.other is q` — the images of the attachments are proved, that the
-image is the object field `q` now holds is not), and `difference`, which is not in the model.
+image is the object field `q` now holds is not).  Outside the modelled fragment of `difference` (the model
+answers `unsupported`, the harness has no expectation): fields of different types under one name, NumPy
+broadcasting of arrays of different shapes, a NaN or a field of a collection as index field, epochs that
+are the empty epoch.
 -/
-import Midgard.Proofs.DatasetExtendRows
+import Midgard.Proofs.DatasetExtendContent
 
 namespace Midgard.Props.C09
 open Midgard.Dataset
@@ -65,10 +81,9 @@ theorem step_invariant (w : W) (op : Op) (w' : W) (out : Out) (hs : step w op = 
 
 /-- `Dataset.subset` refines "keep the selected rows of every column": -/
 theorem subset_refines (idx : Index) (h : Heap) (d : DS) (h' : Heap) (d' : DS)
-    (hok : dsSubset idx h d = .ok (h', d')) (ok : DSOK d) :
-    HeapExt h h' ∧ FieldImg.FieldsImg idx h' d.fields d'.fields ∧ d'.numObs = idx.count ∧ Rect h' d' := by
-  obtain ⟨a, b, c, e, _⟩ := dsSubset_spec idx h d h' d' hok ok.dswf
-  exact ⟨a, b, c, e⟩
+    (hok : dsSubset idx h d = .ok (h', d')) :
+    HeapExt h h' ∧ FieldImg.FieldsImg idx h' d.fields d'.fields ∧ d'.numObs = idx.count ∧ Rect h' d' :=
+  dsSubset_spec idx h d h' d' hok
 
 /-- an image has the picked rows, and so has everything attached to it (one unfolding of `Img`) -/
 theorem image_rows (idx : Index) (h : Heap) (o o' : Nat) (hi : Img idx h o o') :
@@ -183,12 +198,222 @@ theorem sort_refines (h : Heap) (d : DS) (p : Path) (h' : Heap) (d' : DS)
     HeapExt h h' ∧ Rect h' d' ∧ DSOK d' ∧ d'.numObs = d.numObs :=
   dsSort_ok h d p h' d' hok hd ok
 
+/-! ### extend: content refinement (plain columns) -/
+
+/-- **`Dataset.extend` refines the list-of-records `extend`**, for datasets all of whose columns (at any nesting
+depth) are plain arrays (bool / float / text): the abstraction (names, kinds, units, levels and the rows, no
+heap, no memo, no `num_obs`) of the extended dataset is the pure function `aExtendFields` of the abstractions of
+the two operands — a column in both tables has the rows of self followed by the rows of other (float: times the
+unit factor), a column only in self gets `m` empty values at the end, a column only in other `n` empty values in
+front, collections recurse (see `records_extend_float`, `records_extend_plain`, `records_pad`).
+PARTIAL: the full statement is the same equation for datasets with every field type (sigma, time, time delta,
+position, posvel and the deltas with their `other` / `ref_pos` attachments); there `insert` consults the memo,
+and the equation needs the additional hypothesis that the two datasets share their objects compatibly.  Those
+kinds are covered by `extend_counts` (row counts), `insert_splices_rows` (array level) and the correspondence. -/
+theorem extend_refines_records_partial (us : Units) (h : Heap) (d e : DS) (h' : Heap) (d' : DS)
+    (hok : dsExtend us h d e = .ok (h', d')) (hd : Rect h d) (he : Rect h e) (okd : DSOK d) (oke : DSOK e)
+    (hpd : Field.plain.plainL d.fields = true) (hpe : Field.plain.plainL e.fields = true) :
+    aExtendFields us d.numObs e.numObs (absField.absFields h d.fields) (absField.absFields h e.fields) =
+      some (absField.absFields h' d'.fields) :=
+  dsExtend_abs us h d e h' d' hok hd he okd oke hpd hpe
+
+/-- the list-of-records `extend` on a float column present in both tables: the rows of self, then the rows
+of other with every column multiplied by `Unit(other unit, own unit)`; name, unit and level are self's -/
+theorem records_extend_float (us : Units) (n m : Nat) (nm nm2 : String) (nd c : Nat) (u u2 : Option (List String))
+    (l l2 : Nat) (rows rows2 : List Row) (fs : List Rat) (hu : unitFactors us u u2 = .ok fs) :
+    aExtend us n m (.leaf nm .float nd c u l rows) (.leaf nm2 .float nd c u2 l2 rows2) =
+      some (.leaf nm .float nd c u l (rows ++ rows2.map (scaleRow fs))) := by
+  simp [aExtend, aExtendLeaf, hu]
+
+/-- … on a bool / text column: the rows of self, then the rows of other -/
+theorem records_extend_plain (us : Units) (n m : Nat) (nm nm2 : String) (k : Kind) (nd c : Nat)
+    (u u2 : Option (List String)) (l l2 : Nat) (rows rows2 : List Row) (hk : k = .bool ∨ k = .text) :
+    aExtend us n m (.leaf nm k nd c u l rows) (.leaf nm2 k nd c u2 l2 rows2) =
+      some (.leaf nm k nd c u l (rows ++ rows2)) := by
+  rcases hk with rfl | rfl <;> simp [aExtend, aExtendLeaf, Kind.isPlain]
+
+/-- a column missing on one side: `k` empty values of its type (NaN / False / "") after, or in front of, its rows -/
+theorem records_pad (front : Bool) (k : Nat) (nm : String) (kd : Kind) (nd c : Nat) (u : Option (List String)) (l : Nat)
+    (rows : List Row) :
+    aPad front k (.leaf nm kd nd c u l rows) =
+      .leaf nm kd nd c u l (if front then List.replicate k (emptyRow kd c) ++ rows else rows ++ List.replicate k (emptyRow kd c)) := by
+  simp [aPad]
+
+/-! ### difference -/
+
+/-- `Dataset.difference` returns a rectangular, well-formed table with at least one row: every field, nested
+field and attached object has `num_obs` rows (no assumption on the operands: both selections have the
+number of paired rows, or the operation fails) -/
+theorem difference_rectangular (us : Units) (h : Heap) (d e : DS) (ib : Option (List String)) (cs co : Bool)
+    (h' : Heap) (r : DS) (hok : dsDifference us h d e ib cs co = .ok (h', r)) :
+    HeapExt h h' ∧ Rect h' r ∧ DSOK r ∧ r.numObs ≠ 0 := by
+  obtain ⟨a, b, c⟩ := dsDifference_ok us h d e ib cs co h' r hok
+  obtain ⟨_, _, _, _, hc, hn, _⟩ := dsDifference_spec us h d e ib cs co h' r hok
+  exact ⟨a, b, c, by rw [hn]; exact hc⟩
+
+/-- the common keys are strictly ascending (hence distinct) and are exactly the keys both lists carry -/
+theorem common_keys_sorted_distinct (A B : List Key) :
+    (commonKeys A B).Pairwise KeyLt ∧ (commonKeys A B).Nodup ∧ ∀ k, k ∈ commonKeys A B ↔ k ∈ A ∧ k ∈ B :=
+  ⟨commonKeys_sorted A B, (commonKeys_sorted A B).imp (fun hlt => hlt.2), mem_commonKeys A B⟩
+
+/-- the row paired with a key is the first row that carries it -/
+theorem first_occurrence (A : List Key) (k : Key) (hk : k ∈ A) :
+    A[A.idxOf k]? = some k ∧ ∀ j, j < A.idxOf k → A[j]? ≠ some k :=
+  ⟨getElem?_idxOf hk, fun j hj => idxOf_first A k j hj⟩
+
+/-- **difference pairs rows by the index fields.**  With `A`, `B` the key tuples of the rows of self and of
+other: the result has one row per common key, in strictly ascending key order; with `i_k` / `j_k` the first
+row of self / other carrying the `k`-th common key, every field `x` of the result is
+`DiffAny … (ints i) (ints j) …` — the difference (or `_self` / `_other` copy, or collection of such, to any depth)
+of a pair of fields of the same name built with exactly these two index arrays — or one of the index fields,
+copied from self with the index array `i`. -/
+theorem difference_pairs_by_key (us : Units) (h : Heap) (d e : DS) (nms : List String) (cs co : Bool)
+    (h' : Heap) (r : DS) (hok : dsDifference us h d e (some nms) cs co = .ok (h', r)) :
+    ∃ ca cb A B, nms.mapM (indexColumn h d) = .ok ca ∧ nms.mapM (indexColumn h e) = .ok cb ∧
+      keyRows ca = .ok A ∧ keyRows cb = .ok B ∧
+      (commonKeys A B).Pairwise KeyLt ∧ (∀ k, k ∈ commonKeys A B ↔ k ∈ A ∧ k ∈ B) ∧
+      (∀ k ∈ commonKeys A B, (A[A.idxOf k]? = some k ∧ ∀ j, j < A.idxOf k → A[j]? ≠ some k) ∧
+                              (B[B.idxOf k]? = some k ∧ ∀ j, j < B.idxOf k → B[j]? ≠ some k)) ∧
+      r.numObs = (commonKeys A B).length ∧ r.numObs ≠ 0 ∧
+      ∀ x ∈ r.fields,
+        DiffOf.DiffAny us (.ints ((commonKeys A B).map (fun k => Int.ofNat (A.idxOf k))))
+          (.ints ((commonKeys A B).map (fun k => Int.ofNat (B.idxOf k)))) (commonKeys A B).length h'
+          d.fields e.fields x ∨
+        (IndexCopy (.ints ((commonKeys A B).map (fun k => Int.ofNat (A.idxOf k)))) (commonKeys A B).length h' d.fields x ∧
+          x.name ∈ nms) := by
+  obtain ⟨si, oi, cnt, hidx, hc, hn, _, _, hall⟩ := dsDifference_spec us h d e (some nms) cs co h' r hok
+  obtain ⟨ca, cb, A, B, h1, h2, h3, h4, rfl, rfl, rfl⟩ := diffIndex_keyed hidx
+  refine ⟨ca, cb, A, B, h1, h2, h3, h4, commonKeys_sorted A B, mem_commonKeys A B, ?_, hn, by rw [hn]; exact hc, ?_⟩
+  · intro k hk
+    obtain ⟨ka, kb⟩ := (mem_commonKeys A B k).mp hk
+    exact ⟨first_occurrence A k ka, first_occurrence B k kb⟩
+  · intro x hx
+    simpa using hall x hx
+
+/-- reading a difference array with row-number indices: row `n` of the result is row `is[n]` of self minus
+row `js[n]` of other times the unit factors (column by column; NaN propagates) -/
+theorem difference_row (us : Units) (h : Heap) (k : Kind) (u u2 : Option (List String)) (o o2 r : Nat)
+    (is js : List Nat) (hl : is.length = js.length)
+    (hd : DiffObj us (.ints (is.map Int.ofNat)) (.ints (js.map Int.ofNat)) h k u u2 o o2 r) :
+    ∃ oa ob orr fs, h[o]? = some oa ∧ h[o2]? = some ob ∧ h[r]? = some orr ∧ diffFactors us u u2 = .ok fs ∧
+      orr.rows.length = is.length ∧
+      ∀ n (hn : n < is.length), ∃ ra rb, oa.rows[is[n]]? = some ra ∧ ob.rows[js[n]'(hl ▸ hn)]? = some rb ∧
+        orr.rows[n]? = some (subRow ra (scaleRow fs rb)) := by
+  obtain ⟨oa, ob, orr, ra, rb, fs, h1, h2, h3, h4, h5, h6, h7, _⟩ := hd
+  obtain ⟨la, ga⟩ := pick_nats is oa.rows ra h4
+  obtain ⟨lb, gb⟩ := pick_nats js ob.rows rb h5
+  refine ⟨oa, ob, orr, fs, h1, h2, h3, h6, by rw [h7]; simp [la, lb, hl], ?_⟩
+  intro n hn
+  have hn' : n < js.length := hl ▸ hn
+  obtain ⟨ea, ia⟩ := ga n hn
+  obtain ⟨eb, ib⟩ := gb n hn'
+  refine ⟨oa.rows[is[n]], ob.rows[js[n]], List.getElem?_eq_getElem ia, List.getElem?_eq_getElem ib, ?_⟩
+  have xa : ra[n]? = some oa.rows[is[n]] := by rw [ea, List.getElem?_eq_getElem ia]
+  have xb : rb[n]? = some ob.rows[js[n]] := by rw [eb, List.getElem?_eq_getElem ib]
+  rw [h7, List.getElem?_zipWith, xa, List.getElem?_map, xb]
+  rfl
+
+/-- **without `index_by` rows pair by position**: the numbers of observations must agree, and every field of
+the result (at any depth) is built with the all-true masks, i.e. row `k` with row `k` -/
+theorem difference_pairs_by_position (us : Units) (h : Heap) (d e : DS) (cs co : Bool)
+    (h' : Heap) (r : DS) (hok : dsDifference us h d e none cs co = .ok (h', r)) :
+    d.numObs = e.numObs ∧ r.numObs = d.numObs ∧ r.numObs ≠ 0 ∧
+      ∀ x ∈ r.fields, DiffOf.DiffAny us (.mask (List.replicate d.numObs true)) (.mask (List.replicate d.numObs true))
+        d.numObs h' d.fields e.fields x := by
+  obtain ⟨si, oi, cnt, hidx, hc, hn, _, _, hall⟩ := dsDifference_spec us h d e none cs co h' r hok
+  obtain ⟨heq, rfl, rfl, rfl⟩ := diffIndex_positional hidx
+  refine ⟨heq, hn, by rw [hn]; exact hc, fun x hx => ?_⟩
+  rcases hall x hx with h0 | h0
+  · exact h0
+  · simp at h0
+
+/-- reading a difference array built with the all-true masks: the arrays have `n` rows each and row `k` of
+the result is row `k` of self minus row `k` of other times the unit factors -/
+theorem difference_row_positional (us : Units) (h : Heap) (k : Kind) (u u2 : Option (List String)) (o o2 r n : Nat)
+    (hd : DiffObj us (.mask (List.replicate n true)) (.mask (List.replicate n true)) h k u u2 o o2 r) :
+    ∃ oa ob orr fs, h[o]? = some oa ∧ h[o2]? = some ob ∧ h[r]? = some orr ∧ diffFactors us u u2 = .ok fs ∧
+      oa.rows.length = n ∧ ob.rows.length = n ∧
+      orr.rows = List.zipWith subRow oa.rows (ob.rows.map (scaleRow fs)) := by
+  obtain ⟨oa, ob, orr, ra, rb, fs, h1, h2, h3, h4, h5, h6, h7, _⟩ := hd
+  obtain ⟨rfl, la⟩ := pick_mask_all n oa.rows ra h4
+  obtain ⟨rfl, lb⟩ := pick_mask_all n ob.rows rb h5
+  exact ⟨oa, ob, orr, fs, h1, h2, h3, h6, la, lb, h7⟩
+
+/-- unequal numbers of observations without `index_by`: `ValueError`, whatever the fields -/
+theorem difference_unequal_lengths (us : Units) (h : Heap) (d e : DS) (cs co : Bool) (hne : d.numObs ≠ e.numObs) :
+    dsDifference us h d e none cs co = .error .value := by
+  have : (d.numObs != e.numObs) = true := by simpa using hne
+  simp [dsDifference, diffIndex, this]
+
+/-- no pair of rows (with `index_by`: no key tuple in common): `ValueError`, whatever the fields -/
+theorem difference_nothing_in_common (us : Units) (h : Heap) (d e : DS) (ib : Option (List String)) (cs co : Bool)
+    (si oi : Index) (hidx : diffIndex h d e ib = .ok (si, oi, 0)) :
+    dsDifference us h d e ib cs co = .error .value := by
+  simp [dsDifference, hidx]
+
 /-! ### non-vacuity -/
 
 example : pick (.mask [true, false, true]) [1, 2, 3] = .ok [1, 3] := rfl
 example : pick (.ints [-1, 0]) [1, 2, 3] = .ok [3, 1] := rfl
 example : pick (.ints [3]) [1, 2, 3] = (.error .index : M (List Nat)) := rfl
 example : argsortStable [.num 2, .num 1, .num 2, .num 1] = [1, 3, 0, 2] := by decide +kernel
+
+/-- self: keys `a b a` (a duplicate), `g.x = 1 2 3`; other: keys `b a`, `g.x = 10 20` -/
+def exHeap : Heap := [
+  { kind := .text, ndim := 1, cols := 1, rows := [[.txt "a"], [.txt "b"], [.txt "a"]] },
+  { kind := .float, ndim := 1, cols := 1, rows := [[.num 1], [.num 2], [.num 3]] },
+  { kind := .text, ndim := 1, cols := 1, rows := [[.txt "b"], [.txt "a"]] },
+  { kind := .float, ndim := 1, cols := 1, rows := [[.num 10], [.num 20]] } ]
+def exD : DS := { numObs := 3, fields := [.leaf "k" .text 0 3 none 3, .coll "g" 3 3 [.leaf "x" .float 1 3 none 3]] }
+def exE : DS := { numObs := 2, fields := [.leaf "k" .text 2 2 none 3, .coll "g" 2 3 [.leaf "x" .float 3 2 none 3]] }
+
+/-- the hypotheses of `difference_pairs_by_key` / `difference_rectangular` are satisfiable: keys `a`, `b` in
+ascending order, paired with the first rows carrying them (0, 1 of self; 1, 0 of other); the nested field
+`g.x` (heap object 8) is `1 − 20, 2 − 10` -/
+example : (dsDifference [] exHeap exD exE (some ["k"]) false false).toOption.map
+      (fun p => (p.2.numObs, names p.2.fields, (p.1.getD 8 default).rows, (p.1.getD 9 default).rows))
+    = some (2, ["g", "k"], [[.num (-19)], [.num (-8)]], [[.txt "a"], [.txt "b"]]) := by decide +kernel
+/-- by position: unequal lengths fail, equal lengths pair row `k` with row `k` -/
+example : dsDifference [] exHeap exD exE none false false = .error .value :=
+  difference_unequal_lengths _ _ _ _ _ _ (by decide)
+example : (dsDifference [] exHeap exD exD none true false).toOption.map
+      (fun p => (p.2.numObs, names p.2.fields, (p.1.getD 8 default).rows))
+    = some (3, ["k_self", "g"], [[.num 0], [.num 0], [.num 0]]) := by decide +kernel
+example : intersectKeys [[.num 1], [.num 1], [.num 2]] [[.num 2], [.num 3], [.num 1]] = [(0, 2), (2, 0)] := by
+  decide +kernel
+example : intersectKeys [[.txt "a"]] [[.txt "b"]] = [] := by decide +kernel
+/-- the list-of-records `extend`: `x` (bit) gets other's `x` (byte, factor 8) appended, `y` only in other gets two
+NaN in front, `z` only in self one NaN at the end -/
+example : (aExtendFields [("byte", "bit", 8)] 2 1
+    [.leaf "x" .float 1 1 (some ["bit"]) 3 [[.num 1], [.num 2]], .leaf "z" .float 1 1 none 3 [[.num 5], [.num 6]]]
+    [.leaf "y" .float 1 1 none 2 [[.num 7]], .leaf "x" .float 1 1 (some ["byte"]) 1 [[.num 3]]]).map aLeaves.aLeavesL =
+    some [("x", [[.num 1], [.num 2], [.num 24]]), ("z", [[.num 5], [.num 6], [.nan]]),
+          ("y", [[.nan], [.nan], [.num 7]])] := by decide +kernel
+
+/-- does the history run? (executable) -/
+def runs : W → List Op → Bool
+  | _, [] => true
+  | w, op :: ops => match step w op with
+    | .ok (w', _) => runs w' ops
+    | .error _ => false
+
+theorem run_of_runs : ∀ (ops : List Op) (w : W), (∀ w op, op ∈ ops → Valid w op) → runs w ops = true → ∃ w', Run w ops w'
+  | [], w, _, _ => ⟨w, .nil w⟩
+  | op :: ops, w, hv, hr => by
+    simp only [runs] at hr
+    split at hr
+    · rename_i w1 out hs
+      obtain ⟨w', hrun⟩ := run_of_runs ops w1 (fun w o ho => hv w o (List.mem_cons_of_mem _ ho)) hr
+      exact ⟨w', .cons (hv w op (by simp)) hs hrun⟩
+    · simp at hr
+
+/-- a history with differences (keyed, then of the result with itself by position) and a subset in between is a
+`Run`, so `history_invariant` speaks about it -/
+example : ∃ w', Run { heap := exHeap, ds := [some exD, some exE] }
+    [.difference 0 1 2 (some ["k"]) true true, .subset 2 (.ints [1, 0, 1]), .difference 2 2 0 none false true] w' :=
+  run_of_runs _ _ (fun w op hop => by
+    simp only [List.mem_cons, List.not_mem_nil, or_false] at hop
+    rcases hop with rfl | rfl | rfl <;> trivial) (by decide +kernel)
 
 end Midgard.Props.C09
 
@@ -210,3 +435,17 @@ end Midgard.Props.C09
 #print axioms Midgard.Props.C09.extend_float_converts_units
 #print axioms Midgard.Props.C09.sort_is_stable_permutation
 #print axioms Midgard.Props.C09.sort_refines
+#print axioms Midgard.Props.C09.difference_rectangular
+#print axioms Midgard.Props.C09.common_keys_sorted_distinct
+#print axioms Midgard.Props.C09.first_occurrence
+#print axioms Midgard.Props.C09.difference_pairs_by_key
+#print axioms Midgard.Props.C09.difference_row
+#print axioms Midgard.Props.C09.difference_pairs_by_position
+#print axioms Midgard.Props.C09.difference_row_positional
+#print axioms Midgard.Props.C09.difference_unequal_lengths
+#print axioms Midgard.Props.C09.difference_nothing_in_common
+#print axioms Midgard.Props.C09.run_of_runs
+#print axioms Midgard.Props.C09.extend_refines_records_partial
+#print axioms Midgard.Props.C09.records_extend_float
+#print axioms Midgard.Props.C09.records_extend_plain
+#print axioms Midgard.Props.C09.records_pad
